@@ -161,7 +161,7 @@ def _np_hyperu(a, b):
 
 # mp: extras -> mp function;  np: extras -> NumPy/SciPy function (order 0);  range: magnitude restriction;
 # holes: (singular point, margin);  cap: highest n per tier;  slow: reference is expensive
-def _S(mpf_, npf, rng=None, holes=(), cap=(10, 16), tol=1e-9, slow=False, extras=None, maxel=4):
+def _S(mpf_, npf, rng=None, holes=(), cap=(10, 16), tol=1e-9, slow=False, extras=None, maxel=6):
     return dict(mp=(mpf_ if extras else (lambda f=mpf_: f)), np=(npf if extras else (lambda f=npf: f)), range=rng,
                 holes=list(holes), cap={'quick': cap[0], 'thorough': cap[1]}, tol=tol, slow=slow, extras=extras, maxel=maxel)
 
@@ -338,10 +338,45 @@ def _call(name, extras, x, n, mode):
         out, aliased = xin, True
     elif mode == 'view':
         out, aliased = xin[...], True
+    elif mode in NONCONTIGUOUS_OUT:
+        out, big = _noncontiguous_out(mode, np.shape(x))
     else:
         raise KeyError(mode)
     ret = guard(f, *(list(extras) + [xin]), out=out, n=n)
+    if mode in NONCONTIGUOUS_OUT:
+        _check_surroundings(name, mode, out, big)
     return ret, out, xin, aliased
+
+
+# out= buffers of rank 2 that cannot be flattened without a copy (no uniform stride)
+NONCONTIGUOUS_OUT = ('block', 'fortran', 'transposed', 'strided')
+
+
+def _noncontiguous_out(mode, shape, dtype=float):
+    r, c = shape
+    if mode == 'block':            # a block of a larger matrix
+        big = np.full((r + 2, c + 3), 7.25, dtype=dtype)
+        return big[1:1 + r, 1:1 + c], big
+    if mode == 'strided':          # every second row and column of a larger matrix
+        big = np.full((2 * r, 2 * c), 7.25, dtype=dtype)
+        return big[::2, ::2], big
+    if mode == 'fortran':          # column-major buffer
+        big = np.full((r, c), 7.25, dtype=dtype, order='F')
+        return big, big
+    big = np.full((c, r), 7.25, dtype=dtype)      # transposed view of a row-major buffer
+    return big.T, big
+
+
+def _check_surroundings(name, mode, out, big):
+    """entries of the larger matrix outside the block handed over as out= must keep their contents"""
+    if mode in ('block', 'strided'):
+        mask = np.ones(big.shape, dtype=bool)
+        if mode == 'block':
+            mask[1:1 + out.shape[0], 1:1 + out.shape[1]] = False
+        else:
+            mask[::2, ::2] = False
+        if not np.all(big[mask] == 7.25):
+            raise Violation('nthderiv.%s(..., out=<%s of a larger matrix>): entries outside the block were overwritten' % (name, mode))
 
 
 def _as_real_array(v, what):
@@ -443,7 +478,9 @@ def _what(case):
     mode = _out_mode(case)
     outs = {'none': '', 'fresh': ', out=<new float64 buffer>', 'recycled': ', out=<float64 buffer holding old data>',
             'self': ', out=x', 'view': ', out=x[...]', 'complex': ', out=<complex128 buffer>',
-            'longdouble': ', out=<longdouble buffer>'}[mode]
+            'longdouble': ', out=<longdouble buffer>', 'block': ', out=big[1:1+r, 1:1+c] (block of a larger float64 matrix holding old data)',
+            'strided': ', out=big[::2, ::2]', 'fortran': ', out=<column-major float64 buffer holding old data>',
+            'transposed': ', out=<transposed view of a row-major buffer holding old data>'}[mode]
     return 'nthderiv.%s(%s%s%s, n=%d)' % (case['f'], ex, xs, outs, case['n'])
 
 
@@ -603,18 +640,27 @@ def prop_piecewise(case, stats):
 
 def prop_filled(case, stats):
     x, v = case['x'], case['v']
-    what = 'nthderiv.np_filled_like(%r, %r%s)' % (x.tolist() if isinstance(x, np.ndarray) else x, v, ', out=..' if case['out'] else '')
+    mode = _out_mode(case)
+    what = 'nthderiv.np_filled_like(%r, %r%s)' % (x.tolist() if isinstance(x, np.ndarray) else x, v,
+                                                  '' if mode == 'none' else ', out=<%s buffer>' % mode)
     f = _fn('np_filled_like')
     # like numpy.full_like: the result has the type of x (an integer x truncates the fill value); a given out buffer
     # keeps its own type
-    ref = np.full(np.shape(x), float(v)) if case['out'] else np.asarray(np.full_like(np.asarray(x), v), dtype=float)
-    if case['out']:
-        out = np.full(np.shape(x), np.nan)
-        ret = guard(f, x, v, out)
-        pairs = ((what, ret), (what + ' [contents of out]', out))
-    else:
+    if mode == 'none':
+        ref = np.asarray(np.full_like(np.asarray(x), v), dtype=float)
         ret = guard(f, x, v)
         pairs = ((what, ret),)
+    else:
+        ref = np.full(np.shape(x), float(v))
+        big = None
+        if mode in NONCONTIGUOUS_OUT:
+            out, big = _noncontiguous_out(mode, np.shape(x))
+        else:
+            out = np.full(np.shape(x), np.nan if mode == 'fresh' else 7.25)
+        ret = guard(f, x, v, out)
+        if big is not None:
+            _check_surroundings('np_filled_like', mode, out, big)
+        pairs = ((what, ret), (what + ' [contents of out]', out))
     for label, got in pairs:
         a = np.asarray(got)
         if a.shape != ref.shape or not np.array_equal(a.astype(float), ref):
@@ -655,21 +701,24 @@ def _form_and_shape(draw, maxel, forms=None):
     form = draw(st.sampled_from(forms or FORMS))
     if form in ('arr1', 'intarr64', 'intarr32', 'f32arr'):
         if draw(st.integers(0, 3)) == 0 and maxel >= 2:
-            shape = draw(st.sampled_from([s for s in [(2, 2), (1, 2), (2, 1), (1, 3), (1, 1)] if s[0] * s[1] <= max(maxel, 2)]))
+            shape = draw(st.sampled_from([s for s in [(2, 2), (2, 3), (3, 2), (1, 2), (2, 1), (1, 3), (1, 1)] if s[0] * s[1] <= max(maxel, 2)]))
         else:
-            shape = (draw(st.integers(1, maxel)),)
+            shape = (draw(st.integers(1, min(maxel, 4))),)
     elif form == 'arr2':
-        shape = draw(st.sampled_from([s for s in [(2, 2), (1, 2), (2, 1), (1, 3), (1, 1)] if s[0] * s[1] <= max(maxel, 2)]))
+        shape = draw(st.sampled_from([s for s in [(2, 2), (2, 3), (3, 2), (1, 2), (2, 1), (1, 3), (1, 1)] if s[0] * s[1] <= max(maxel, 2)]))
     else:
         shape = ()
     return form, shape
 
 
-def _out_modes_for(form):
-    """out= forms admissible for an argument form: aliasing needs a float64 ndarray argument"""
+def _out_modes_for(form, shape=()):
+    """out= forms admissible for an argument form: aliasing needs a float64 ndarray argument; rank-2 arguments also get
+    out= buffers that are not contiguous (block / every-second-entry view of a larger matrix, column-major, transposed)"""
     modes = ['none', 'none', 'fresh', 'recycled', 'complex', 'longdouble']
     if form in ('arr0', 'arr1', 'arr2'):
         modes += ['self', 'view', 'self', 'view']
+    if len(shape) == 2:
+        modes += ['block', 'fortran', 'transposed', 'strided', 'block', 'fortran']
     return modes
 
 
@@ -849,7 +898,7 @@ def smooth_cases(draw, name, tier):
             if w != v:
                 vals[k] = w
                 steered[KF_HYPERU] = steered.get(KF_HYPERU, 0) + 1
-    out = draw(st.sampled_from(_out_modes_for(form)))
+    out = draw(st.sampled_from(_out_modes_for(form, shape)))
     case = {'f': name, 'n': n, 'extras': extras, 'form': form, 'kind': kind, 'x': _build(form, vals, shape), 'out': out}
     if steered:
         case['steered'] = steered
@@ -893,7 +942,7 @@ def piecewise_cases(draw, name, tier):
     if kind == 'wide' and not (n == 0 or jump in ('zero', 'bounds')):
         kind = 'f64'        # every double beyond 2**53 is an integer, i.e. a jump of floor/ceil/trunc/fix/rint
     forms = INT_FORMS if kind == 'int' else (F32_FORMS if kind == 'f32' else None)
-    form, shape = draw(_form_and_shape(4, forms))
+    form, shape = draw(_form_and_shape(6, forms))
     cnt = int(np.prod(shape, dtype=int))
     extras = []
     lo = hi = None
@@ -901,12 +950,12 @@ def piecewise_cases(draw, name, tier):
         # a_min <= a_max (a_min > a_max is inadmissible); negative, zero and positive bounds; ints and floats;
         # now and then the degenerate interval a_min == a_max
         lo = draw(st.one_of(st.integers(-5, 4), gen.nice_floats(-5.0, 4.0)))
-        if draw(st.integers(0, 7)) == 0:
+        # one-sided and unbounded clipping: an infinite bound is admissible (numpy.clip(x, 0, numpy.inf))
+        inf_mode = draw(st.sampled_from(['finite'] * 4 + ['degenerate', 'hi-inf', 'lo-inf', 'both-inf', 'hi-inf', 'lo-inf']))
+        if inf_mode == 'degenerate':
             hi = lo
         else:
             hi = lo + draw(st.one_of(st.integers(1, 4), gen.nice_floats(0.5, 4.0)))
-        # one-sided and unbounded clipping: an infinite bound is admissible (numpy.clip(x, 0, numpy.inf))
-        inf_mode = draw(st.sampled_from(['finite'] * 5 + ['hi-inf', 'lo-inf', 'both-inf']))
         if inf_mode in ('hi-inf', 'both-inf'):
             hi = float('inf')
         if inf_mode in ('lo-inf', 'both-inf'):
@@ -953,7 +1002,9 @@ def piecewise_cases(draw, name, tier):
             if region == 1 and hi > lo:
                 return lo + 0.05 + u * (hi - lo - 0.1)
             return hi + 0.05 + 2 * u
-        pt = st.tuples(st.sampled_from([1, 0, 2, 1]), gen.nice_floats(0.0, 1.0)).map(place)
+        # regions: 0 below a_min, 1 inside, 2 above a_max; for a one-sided interval the clipped side twice as likely
+        regions = [0, 0, 1] if (hi == float('inf') and lo != float('-inf')) else ([2, 2, 1] if lo == float('-inf') and hi != float('inf') else [1, 0, 2, 1])
+        pt = st.tuples(st.sampled_from(regions), gen.nice_floats(0.0, 1.0)).map(place)
     if kind == 'f32':
         # the float32 value must keep the margin from the jumps: round first, then require the float64 construction rule
         pt = pt.map(lambda v: float(np.float32(v)))
@@ -961,7 +1012,7 @@ def piecewise_cases(draw, name, tier):
     if kind == 'f32' and n >= 1:
         vals = [_keep_margin(name, jump, v, lo, hi) for v in vals]
     case = {'f': name, 'n': n, 'extras': extras, 'form': form, 'kind': kind, 'x': _build(form, vals, shape),
-            'out': draw(st.sampled_from(_out_modes_for(form)))}
+            'out': draw(st.sampled_from(_out_modes_for(form, shape)))}
     if draw(st.integers(0, 2)) == 0:
         case['seq'] = [(name, draw(st.integers(0, nmax))) for _ in range(draw(st.integers(1, 3)))]
     return case
@@ -974,15 +1025,16 @@ def _keep_margin(name, jump, v, lo, hi):
 
 @st.composite
 def filled_cases(draw, tier):
-    form, shape = draw(_form_and_shape(4, FORMS + INT_FORMS[:3] + F32_FORMS))
+    form, shape = draw(_form_and_shape(6, FORMS + INT_FORMS + F32_FORMS))
     cnt = int(np.prod(shape, dtype=int))
     if form in INT_FORMS:
         vals = [float(draw(st.integers(-5, 5))) for _ in range(cnt)]
     else:
         vals = [draw(gen.nice_floats(-5.0, 5.0)) for _ in range(cnt)]
     v = draw(st.one_of(st.integers(-3, 3), gen.nice_floats(-5.0, 5.0)))
+    modes = ['none', 'fresh', 'recycled'] + (['block', 'fortran', 'transposed', 'strided'] * 2 if len(shape) == 2 else [])
     return {'f': 'np_filled_like', 'n': 0, 'extras': [], 'form': form, 'x': _build(form, vals, shape), 'v': v,
-            'out': draw(st.booleans())}
+            'out': draw(st.sampled_from(modes))}
 
 
 def _classes(case):
